@@ -244,6 +244,7 @@ def judge (ops outs : List String) : String :=
     match ops, outs with
     | op :: ops, out :: outs =>
       if out.startsWith "panic" then s!"violation panic op={k} `{op}`" else
+      if out = "hang" then s!"violation hang op={k} `{op}`" else
       match toks op with
       | ["log", recs] =>
         if !out.startsWith "ok" then s!"violation log-error op={k} out={out}" else
@@ -275,6 +276,7 @@ def judge (ops outs : List String) : String :=
           else go js ops outs (k + 1)
         | none => s!"violation unparsable op={k}"
       | ["livecuts", _, _] =>
+        if out = "no-segment" then go js ops outs (k + 1) else
         let obs := (out.splitOn ";").map fun o => o.splitOn "/"
         if obs.any (fun o => o.getLast? ≠ some "eof") then s!"violation livecuts-corruption op={k} `{op}`"
         else
